@@ -365,6 +365,57 @@ func runC20(src sim.Source, o Opts) *Result {
 			res.fail("C20/location", "%s: location attribute %q present for status %d / Location %q", where, rec.Attrs["location"], wantStatus, loc)
 		}
 	}
+	// one run in four: the same question through fox's built-in log handler (Logger()), which writes to the process'
+	// standard output and error - captured through a private scratch file. Some requests are huge (the handler pools its
+	// render buffers up to a size); every request still gets exactly one record, about itself.
+	if !res.failed() && src.Intn("builtinloghandler", 4) == 3 {
+		res.inc("runs_with_builtin_log_handler")
+		rb, err := fox.New(fox.WithMiddleware(fox.Logger()))
+		var status int
+		if err == nil {
+			_, err = rb.Handle("GET", "/*{any}", func(c fox.Context) { c.Writer().WriteHeader(status) })
+		}
+		if err != nil {
+			res.Trouble = "built-in handler router: " + err.Error()
+			return res
+		}
+		nb := 3 + src.Intn("nbuiltin", 4)
+		for q := 0; q < nb && !res.failed(); q++ {
+			status = sim.Pick(src, "bstatus", []int{200, 204, 302, 404, 500})
+			pad := sim.Pick(src, "bpad", []int{0, 0, 100, 17000, 70000})
+			tok := fmt.Sprintf("btok%dx", q)
+			bp := world.Probe{Method: "GET", Host: "sim.invalid", Path: "/" + tok + "/" + strings.Repeat("p", pad)}
+			conn := world.NewConn()
+			var escaped any
+			out, cerr := world.CaptureStderr(func() {
+				defer func() { escaped = recover() }()
+				rb.ServeHTTP(conn, world.NewRequest(bp.Method, bp.Host, bp.Path, "", "", nil))
+			})
+			if cerr != nil {
+				res.Trouble = "capturing standard output: " + cerr.Error()
+				return res
+			}
+			res.Checks++
+			text := world.StripANSI(out)
+			squeezed := strings.ReplaceAll(text, " ", "") // the handler pads its columns
+			where := fmt.Sprintf("built-in log handler, request %d (GET /%s/ + %d bytes -> %d)", q, tok, pad, status)
+			switch {
+			case escaped != nil:
+				res.fail("C20/panic", "%s: ServeHTTP panicked: %v", where, escaped)
+			case strings.Count(text, "[FOX]") != 1:
+				res.fail("C20/record-count", "%s: %d records written, expected exactly 1 (%d bytes of output)", where, strings.Count(text, "[FOX]"), len(text))
+			case !strings.Contains(text, tok) || !strings.Contains(squeezed, fmt.Sprintf("status=%dmethod=GEThost=sim.invalidpath=/%s/", status, tok)):
+				res.fail("C20/request-attrs", "%s: the record lacks the request's own status, method, host or path: %.300q", where, text)
+			default:
+				for o := 0; o < q; o++ {
+					if strings.Contains(text, fmt.Sprintf("btok%dx", o)) {
+						res.fail("C20/record-count", "%s: the output also carries the record of request %d", where, o)
+						break
+					}
+				}
+			}
+		}
+	}
 	capt.OnRecord = nil
 	// overlapping requests through the same wrapped handlers: 2-3 tasks under the seeded scheduler, yields inside the
 	// handlers and inside the log handler's Enabled (i.e. between the middleware building its attributes and slog copying
